@@ -33,6 +33,7 @@ import (
 	conregv1 "github.com/google/go-containerregistry/pkg/v1"
 
 	"github.com/crossplane/crossplane/internal/controller/pkg/manager"
+	"github.com/crossplane/crossplane/internal/controller/pkg/revision"
 	"github.com/crossplane/crossplane/internal/xpkg"
 	"github.com/crossplane/crossplane/verifh/xrk"
 
@@ -703,6 +704,69 @@ func (f stubFetcher) Tags(context.Context, name.Reference, ...string) ([]string,
 	return nil, nil
 }
 
+// runTwoPackages: the revision controller's workers share ONE establisher. Revisions of two
+// different packages are established by it, the first parked before each of its API calls while
+// the second runs to completion. Every established object ends up with the owner references of
+// the sequential run: its own revision as controller and ITS OWN package as plain owner.
+func runTwoPackages(c *kit.Ctx, i int) {
+	name := fmt.Sprintf("two-packages/%d", i)
+	if !c.Want(name) {
+		return
+	}
+	r := c.Rng("two-packages", i)
+	x := newExec(c, name, map[string]any{"part": "two-packages"}, "Provider", uint64(c.Seed)*419+uint64(i), 1)
+	all := genObjs(r, "Provider", 6, true, false)
+	var crds []objSpec
+	for _, s := range all {
+		if s.Kind == "crd" {
+			s.Conv = false
+			crds = append(crds, s)
+		}
+	}
+	if len(crds) < 4 {
+		c.Count("two_packages_skipped", 1)
+		return
+	}
+	half := len(crds) / 2
+	specsA, specsB := crds[:half], crds[half:]
+	x.mkRevision("pk-r1", 1, v1.PackageRevisionActive, specsA, 1, false, false)
+	riB := &revInfo{Name: otherPkg + "-r1", UID: x.otherRevUID, Specs: specsB, Content: 1}
+	x.revs[riB.Name] = riB
+	est := revision.NewAPIEstablisher(mgrClient{x.cl}, nsXP, 1)
+	est1 := func(rev string, specs []objSpec) func() {
+		return func() {
+			_, _ = est.Establish(bg, buildAll(specs, 1), x.loadRev(rev), true)
+		}
+	}
+	digest := func(w *sim.World) map[string]string {
+		out := map[string]string{}
+		for _, s := range append(append([]objSpec{}, specsA...), specsB...) {
+			o := w.GetObj(s.key())
+			if o == nil {
+				out[s.key().String()] = "<absent>"
+				continue
+			}
+			var os []string
+			for _, ow := range ownersOf(o) {
+				os = append(os, fmt.Sprintf("%s/%s controller=%v", ow.Kind, ow.Name, ow.Controller))
+			}
+			sort.Strings(os)
+			out[s.key().String()] = strings.Join(os, "; ")
+		}
+		return out
+	}
+	points, parked, diffs := xrk.InterleaveVsSequential(x.w, x.cl, est1("pk-r1", specsA), est1(riB.Name, specsB), digest, nil)
+	c.Eval(name, parked > 0)
+	c.Count("two_packages_preemption_points", int64(points))
+	c.Count("two_packages_runs_that_parked", int64(parked))
+	for _, d := range diffs {
+		c.Violate("established-object-owners-differ-when-two-packages-interleave", name,
+			fmt.Sprintf("Establish of %s's revision parked before %s while the revision of %s was established by the same establisher: owners of %s are [%s], sequentially [%s]", x.pkg, d.Point, otherPkg, d.Key, d.Interleaved, d.Sequential), d)
+		break
+	}
+	x.flush()
+}
+
 // runManagerCreated: the revision is created by the REAL package manager reconciler (not by the
 // harness) for packages whose names are short, dotted, or 64-100 characters long, and then
 // established by the real revision reconciler. Every established object keeps the package as a
@@ -777,6 +841,7 @@ func main() {
 	c.Rule += " intruder: for every call index k of an Establish (single cases and the status-lost inactive Establish) a third party deletes one of the revision's objects right before call k; verdict from the per-write monitors, then a clean retry. Sequences: upgrade, rollback and (half of them) roll forward again."
 	c.Rule += " " + "Same-named objects of different kinds in the reconciler sequences (every manifest referenced); packages of 150-270 CRDs with one un-takeable object (a refused Establish writes nothing)."
 	c.Rule += " " + "Revisions created by the real package manager for short, dotted, 74- and 100-character package names; a deactivated revision reconciled from a cache that still shows it Active."
+	c.Rule += " " + "two-packages: revisions of two packages established by ONE establisher, the first parked before each API call while the second completes; owner references per object equal the sequential run."
 	c.Assumptions = []string{
 		"sim implements the apiserver rules of DESIGN.md 2.2 (dry-run fully validated and not persisted, two controller references rejected, GC by owner UID)",
 		"the revision passed to the establisher carries its GroupVersionKind, as objects read through controller-runtime's cache do",
@@ -805,6 +870,7 @@ func main() {
 	}
 	for i := 0; i < c.N(8, 24); i++ {
 		jobs = append(jobs, job{"mgr", i})
+		jobs = append(jobs, job{"two", i})
 	}
 	for i := 0; i < c.N(50, 250); i++ {
 		jobs = append(jobs, job{"fault", i})
@@ -827,6 +893,8 @@ func main() {
 						runLarge(c, j.i)
 					case "mgr":
 						runManagerCreated(c, j.i)
+					case "two":
+						runTwoPackages(c, j.i)
 					case "seq":
 						runSeq(c, j.i, false)
 					case "rseq":
